@@ -152,13 +152,32 @@ func TestVerifC14Entry(t *testing.T) {
 	defer close(stopCh)
 	executor.Run(stopCh)
 
-	n := h.N(1500, 40000)
+	n := h.N(1500, 20000)
 	for idx := 0; idx < n; idx++ {
+		c14eRunCase(t, h, helper, executor, idx, nil)
+	}
+	h.Close(c14eRule)
+}
+
+// c14eFixed pins the structural choices of a case (exhaustive stream); nil = everything drawn from the case's PRNG.
+type c14eFixed struct {
+	v2, be bool
+	ann    int
+	rule   int // 0 default, 1 CFS quota off (enable + cfsQuota policy), 2 ratio 1.50
+	cbMeta bool
+	ctrs   []c14eCtr
+}
+
+func c14eRunCase(t *testing.T, h *vHarness, helper *sysutil.FileTestUtil, executor resourceexecutor.ResourceUpdateExecutor, idx int, fx *c14eFixed) {
+	{
 		r := h.Begin(idx)
 		if r == nil {
-			continue
+			return
 		}
 		v2 := r.Bool()
+		if fx != nil {
+			v2 = fx.v2
+		}
 		helper.SetCgroupsV2(v2)
 
 		// ---------------- the pod ----------------
@@ -177,6 +196,13 @@ func TestVerifC14Entry(t *testing.T) {
 			labels[apiext.LabelPodQoS] = string(apiext.QoSBE)
 			isBE = true
 		}
+		if fx != nil {
+			labels, annotations, isBE = map[string]string{apiext.LabelPodQoS: string(apiext.QoSLS)}, map[string]string{}, fx.be
+			if fx.be {
+				labels[apiext.LabelPodQoS] = string(apiext.QoSBE)
+			}
+			nc = len(fx.ctrs)
+		}
 		uid := fmt.Sprintf("c%d", idx)
 		pod := &corev1.Pod{ObjectMeta: metav1.ObjectMeta{Namespace: "ns", Name: "p", UID: types.UID(uid), Labels: labels},
 			Status: corev1.PodStatus{Phase: corev1.PodRunning}}
@@ -185,7 +211,9 @@ func TestVerifC14Entry(t *testing.T) {
 		for i := range ctrs {
 			c := c14eCtr{name: fmt.Sprintf("k%d", i), req: -1, lim: -1, mem: -1}
 			reqMemOnly := false
-			if !r.Chance(1, 6) {
+			if fx != nil {
+				c.req, c.lim, c.mem, reqMemOnly = fx.ctrs[i].req, fx.ctrs[i].lim, fx.ctrs[i].mem, fx.ctrs[i].decl && fx.ctrs[i].req < 0 && fx.ctrs[i].lim < 0 && fx.ctrs[i].mem < 0
+			} else if !r.Chance(1, 6) {
 				c.req, c.lim, c.mem = c14Amount(r), c14Amount(r), c14Amount(r)
 				if r.Chance(1, 2) { // steer to fully limited containers so that limited pods are frequent
 					if c.lim <= 0 {
@@ -218,7 +246,7 @@ func TestVerifC14Entry(t *testing.T) {
 				}
 				webhookSpec.Containers[c.name] = apiext.ExtendedResourceContainerSpec{Requests: reqs.DeepCopy(), Limits: lims.DeepCopy()}
 			}
-			if r.Chance(1, 4) { // native resources next to the batch ones do not matter
+			if fx == nil && r.Chance(1, 4) { // native resources next to the batch ones do not matter
 				reqs[corev1.ResourceCPU] = *resource.NewMilliQuantity(int64(r.Range(1, 4000)), resource.DecimalSI)
 			}
 			if len(reqs) > 0 || r.Bool() {
@@ -242,6 +270,9 @@ func TestVerifC14Entry(t *testing.T) {
 		ann := c14eAnnValid
 		if r.Chance(1, 2) {
 			ann = r.Intn(8)
+		}
+		if fx != nil {
+			ann = fx.ann
 		}
 		if ann == c14eAnnValid && nDecl == 0 {
 			ann = c14eAnnEmptyObj // the webhook's dump of a pod declaring nothing is "{}"
@@ -278,7 +309,24 @@ func TestVerifC14Entry(t *testing.T) {
 		p := newPlugin()
 		p.executor = executor
 		lastRatio, lastCFS := int64(-100), true
-		for e, nEv := 0, r.Range(0, 2); e < nEv; e++ {
+		nEv := r.Range(0, 2)
+		if fx != nil {
+			nEv = 0
+			switch fx.rule {
+			case 1:
+				upd, _ := p.parseRuleForNodeSLO(&slov1alpha1.NodeSLOSpec{ResourceUsedThresholdWithBE: &slov1alpha1.ResourceThresholdStrategy{
+					Enable: ptr.To(true), CPUSuppressPolicy: slov1alpha1.CPUCfsQuotaPolicy}})
+				h.Op("rule slo 0")
+				h.Obs("upd %d", vB(upd))
+				lastCFS = false
+			case 2:
+				upd, _ := p.parseRuleForNodeMeta(&corev1.Node{ObjectMeta: metav1.ObjectMeta{Name: "n", Annotations: map[string]string{apiext.AnnotationCPUNormalizationRatio: "1.50"}}})
+				h.Op("rule node 150")
+				h.Obs("upd %d", vB(upd))
+				lastRatio = 150
+			}
+		}
+		for e := 0; e < nEv; e++ {
 			if r.Bool() {
 				// NodeSLO shapes: nil spec, no BE strategy, policy unset (=> default strategy), enable x policy
 				var spec *slov1alpha1.NodeSLOSpec
@@ -395,9 +443,12 @@ func TestVerifC14Entry(t *testing.T) {
 			init[1] = int64(r.Range(1, 40)) * 10000
 		}
 		cbMeta := r.Bool() // which rule callback is run at the end
+		if fx != nil {
+			cbMeta = fx.cbMeta
+		}
 		initStr := func(kind int, forCb bool) string {
 			v := init[kind]
-			if kind == 1 && forCb && cbMeta && v2 {
+			if kind == 1 && forCb && v2 {
 				// LeveledUpdateBatch's merge pass writes the raw "-1" into cpu.max when the new quota is larger; a real
 				// kernel rejects that write and the second pass writes "max", the test tree does not.  Start unlimited.
 				v = -1
@@ -482,7 +533,9 @@ func TestVerifC14Entry(t *testing.T) {
 			}
 			return w
 		}
-		fmtAll := func(w [3]int64) c14eFiles { return c14eFiles{c14eFmt(v2, 0, w[0]), c14eFmt(v2, 1, w[1]), c14eFmt(v2, 2, w[2])} }
+		fmtAll := func(w [3]int64) c14eFiles {
+			return c14eFiles{c14eFmt(v2, 0, w[0]), c14eFmt(v2, 1, w[1]), c14eFmt(v2, 2, w[2])}
+		}
 		// does the path KNOW the declared amounts?  NRI / proxy see labels + annotations only; the reconciler sees the pod spec
 		annKnows := ann == c14eAnnValid
 		// judge one pod-level result
@@ -576,7 +629,9 @@ func TestVerifC14Entry(t *testing.T) {
 			}
 		}
 		// --- reconciler: one context per registered pod-level cgroup file, as reconcilePodCgroup does ---
-		podMeta := func(path string) *statesinformer.PodMeta { return &statesinformer.PodMeta{Pod: pod, CgroupDir: podDir(path)} }
+		podMeta := func(path string) *statesinformer.PodMeta {
+			return &statesinformer.PodMeta{Pod: pod, CgroupDir: podDir(path)}
+		}
 		recRegistered := reconciler.PodQOSFilter().Filter(podMeta("r")) == podQOSConditions[0]
 		{
 			decRec := -2
@@ -703,8 +758,65 @@ func TestVerifC14Entry(t *testing.T) {
 			}
 		}
 
-		// ================= rule callback on the pod as an existing pod: only the cfs quota files move =================
-		{
+		// ================= rule callbacks on the pod as an EXISTING pod: a history; only the cfs quota files move =================
+		// step 0 is the initial sync (either callback kind); every later step is a rule event followed, as the rule framework
+		// does, by that rule's callback iff the parse function reported an update.  After every callback the files must hold
+		// the conversion under the rule THEN in force.
+		nCb := 1
+		if fx == nil {
+			nCb = r.Range(1, 3)
+		}
+		for step := 0; step < nCb; step++ {
+			if step > 0 {
+				var upd bool
+				var err error
+				if r.Bool() {
+					enable, cfsPolicy := r.Bool(), r.Chance(2, 3)
+					st := &slov1alpha1.ResourceThresholdStrategy{Enable: ptr.To(enable), CPUSuppressPolicy: slov1alpha1.CPUSetPolicy}
+					if cfsPolicy {
+						st.CPUSuppressPolicy = slov1alpha1.CPUCfsQuotaPolicy
+					}
+					want := !(enable && cfsPolicy)
+					h.Op("rule slo %d", vB(want))
+					upd, err = p.parseRuleForNodeSLO(&slov1alpha1.NodeSLOSpec{ResourceUsedThresholdWithBE: st})
+					lastCFS, cbMeta = want, false
+				} else {
+					node := &corev1.Node{ObjectMeta: metav1.ObjectMeta{Name: "n"}}
+					pctNew := int64(-100)
+					if !r.Chance(1, 4) {
+						pctNew = int64(r.Range(50, 300))
+						if lastRatio > 0 && r.Chance(1, 4) {
+							pctNew = lastRatio + int64(r.Range(-2, 2))
+							if pctNew <= 0 {
+								pctNew = 1
+							}
+						}
+						node.Annotations = map[string]string{apiext.AnnotationCPUNormalizationRatio: fmt.Sprintf("%d.%02d", pctNew/100, pctNew%100)}
+					}
+					h.Op("rule node %d", pctNew)
+					upd, err = p.parseRuleForNodeMeta(node)
+					lastRatio, cbMeta = pctNew, true
+				}
+				if err != nil {
+					h.Obs("err")
+				} else {
+					h.Obs("upd %d", vB(upd))
+				}
+				cfs, effRatio = p.rule.GetCFSQuotaScaleRatio()
+				pct = int64(math.Round(effRatio * 100))
+				scaled = cfs && pct > 100
+				if cfs != lastCFS {
+					h.Fail("C14:stale-cfs-switch", "cfs enabled=%v but the last node SLO says %v", cfs, lastCFS)
+				}
+				if cfs && ((lastRatio < 0 && pct > 0) || (lastRatio > 0 && (pct < lastRatio-1 || pct > lastRatio+1))) {
+					h.Fail("C14:stale-ratio", "ratio %d/100 in force but the node configures %d/100", pct, lastRatio)
+				}
+				podWant[1] = quotaOf(!unlimCPU, sumLim)
+				h.Tag(fmt.Sprintf("cbhist:upd=%v", upd))
+				if !upd {
+					continue // the framework does not call back; the rule is unchanged, so are the files
+				}
+			}
 			target := &statesinformer.CallbackTarget{Pods: []*statesinformer.PodMeta{podMeta("b")}}
 			name := "slo"
 			if cbMeta {
@@ -734,7 +846,7 @@ func TestVerifC14Entry(t *testing.T) {
 								h.Fail("C14:cb-untouched-file-written", "callback %s: container %s (BE=%v, declares=%v) cgroup file %d changed %s -> %s", name, c.name, isBE, c.decl, kind, initFilesCb[kind], got[kind])
 							}
 						case got[kind] != wantQ:
-							h.Fail("C14:cb-container-quota", "callback %s: container %s cfs quota file is %s, declared limit gives %s", name, c.name, got[kind], wantQ)
+							h.Fail("C14:cb-container-quota", "callback %s (step %d): container %s cfs quota file is %s, declared limit under the rule in force gives %s", name, step, c.name, got[kind], wantQ)
 						}
 					}
 				}
@@ -747,8 +859,59 @@ func TestVerifC14Entry(t *testing.T) {
 		}
 		h.End()
 	}
-	h.Close("one generated pod (0-4 spec containers declaring batch cpu request/limit, batch memory limit, or nothing; QoS by label/annotation/none) with an extended-resource-spec annotation of shape " +
-		"absent / \"\" / {} / {containers:null} / {containers:{}} / the webhook's dump / invalid JSON / null, cgroup v1 or v2, 0-2 rule callbacks (NodeSLO shapes nil / no strategy / policy unset / enable x policy; " +
-		"ratio annotation absent / malformed / 1.0 / >1 / <1 in several spellings); pushed through Pod+Container x FromNri/FromProxy/FromReconciler -> hooks -> NriDone/ProxyDone/ReconcilerDone and a final rule callback; " +
-		"observed: cgroup file contents, proxy responses, NRI adjustments; non-trivial = BE pod with >= 1 declaring container; distinct by op lines")
+}
+
+const c14eRule = "one generated pod (0-4 spec containers declaring batch cpu request/limit, batch memory limit, or nothing; QoS by label/annotation/none) with an extended-resource-spec annotation of shape " +
+	"absent / \"\" / {} / {containers:null} / {containers:{}} / the webhook's dump / invalid JSON / null, cgroup v1 or v2, 0-2 rule callbacks (NodeSLO shapes nil / no strategy / policy unset / enable x policy; " +
+	"ratio annotation absent / malformed / 1.0 / >1 / <1 in several spellings); pushed through Pod+Container x FromNri/FromProxy/FromReconciler -> hooks -> NriDone/ProxyDone/ReconcilerDone and a history of 1-3 rule callbacks on the pod as an existing pod (each later one after a rule event that reported an update); " +
+	"observed: cgroup file contents, proxy responses, NRI adjustments; non-trivial = BE pod with >= 1 declaring container; distinct by op lines"
+
+// ---- exhaustive small scope (thorough tier): every annotation shape x BE/non-BE x cgroup v1/v2 x rule (default / CFS quota off /
+// ratio 1.50) x rule callback kind x every pod with 0-2 containers drawn from six container kinds ----
+
+func TestVerifC14EntryExhaustive(t *testing.T) {
+	h := vOpen("C14")
+	if h == nil {
+		t.Skip("VERIF_OUT not set")
+	}
+	helper := sysutil.NewFileTestUtil(t)
+	defer helper.Cleanup()
+	sysutil.SetupCgroupPathFormatter(sysutil.Systemd)
+	executor := resourceexecutor.NewTestResourceExecutor()
+	stopCh := make(chan struct{})
+	defer close(stopCh)
+	executor.Run(stopCh)
+	kinds := []c14eCtr{
+		{decl: false, req: -1, lim: -1, mem: -1},         // declares nothing
+		{decl: true, req: -1, lim: -1, mem: -1},          // declares only a batch-memory request
+		{decl: true, req: 1000, lim: 2000, mem: 1 << 30}, // fully limited
+		{decl: true, req: 0, lim: 0, mem: 0},             // explicit zeros
+		{decl: true, req: 500, lim: -1, mem: -1},         // request only
+		{decl: true, req: -1, lim: 300, mem: 1 << 20},    // limits only
+	}
+	pods := [][]c14eCtr{{}}
+	for _, a := range kinds {
+		pods = append(pods, []c14eCtr{a})
+		for _, b := range kinds {
+			pods = append(pods, []c14eCtr{a, b})
+		}
+	}
+	idx := 0
+	for _, be := range []bool{true, false} {
+		for ann := 0; ann < 8; ann++ {
+			for _, v2 := range []bool{false, true} {
+				for rule := 0; rule < 3; rule++ {
+					for _, cbMeta := range []bool{false, true} {
+						for _, pod := range pods {
+							c14eRunCase(t, h, helper, executor, idx, &c14eFixed{v2: v2, be: be, ann: ann, rule: rule, cbMeta: cbMeta, ctrs: pod})
+							idx++
+						}
+					}
+				}
+			}
+		}
+	}
+	h.Extra("exhaustive", fmt.Sprintf("%d cases", idx))
+	h.Close("exhaustive: BE/non-BE x 8 annotation shapes x cgroup v1/v2 x rule (default, CFS quota off, ratio 1.50) x callback kind x every pod with 0-2 containers of six kinds " +
+		"(declares nothing, only a batch-memory request, fully limited, explicit zeros, request only, limits only); non-trivial = BE pod with >= 1 declaring container")
 }
